@@ -13,7 +13,8 @@ without calculation, settings-on-the-survey-sheet rows, `RE_END_CONTROL`, missin
 Cells use the canonical column names that `dealias_and_group_headers` produces, flattened with
 `::` (`bind::relevant`, `control::jr:count`, `label::en`, …).  Outside the fragment (answered
 `unsupported`): loops, osm, entities `save_to`, `default` on a `calculate` row (needs the
-expression lexer, see `Pyxv.Lexer`), `trigger`, table-list appearance.
+expression lexer, see `Pyxv.Lexer`), table-list appearance, a `parameters` cell (handled by
+`Pyxv.Controls`, which strips it before calling `classify`).
 -/
 namespace Pyxv.Rows
 open Pyxv Pyxv.Form
@@ -151,8 +152,11 @@ def tagHasControl (tag : String) : Bool :=
   ["input", "odk:rank", "osm", "range", "select", "select1", "trigger", "upload"].contains tag
 
 def hasBindCells (r : Cells) : Bool := hasPrefix r "bind::"
+/-- `self.label or self.hint`; an unlabelled element whose appearance is exactly `label` gets the
+    label `" "` (`SurveyElement.__init__`, survey_element.py 127-137) -/
 def hasLabelOrHint (r : Cells) : Bool :=
-  has r "label" || hasPrefix r "label::" || has r "hint" || hasPrefix r "hint::"
+  has r "label" || hasPrefix r "label::" || has r "hint" || hasPrefix r "hint::" ||
+  get r "control::appearance" = some "label".toList
 
 /-- facts of an ordinary question of (table) type `t` -/
 def qdata (name : Str) (t : Str) (r : Cells) : Option QData :=
@@ -166,8 +170,9 @@ def qdata (name : Str) (t : Str) (r : Cells) : Option QData :=
     let tag := (entryGet e "control" "tag").getD ""
     let tag := if tag = "upload" && entryGet e "control" "mediatype" = some "osm/*" then "osm" else tag
     -- Question.xml_control: calculate, or (calculate bind / trigger) without label or hint → no control
+    -- (a type-table `hint`, e.g. of `phone number`, counts as the question's hint)
     let hidden := t = "calculate".toList ||
-      ((has r "bind::calculate" || has r "trigger") && !hasLabelOrHint r)
+      ((has r "bind::calculate" || has r "trigger") && !(hasLabelOrHint r || entryHas e ""))
     some { name, bind, control := tagHasControl tag && !hidden, node := true, tag := tag.toList }
 
 inductive Cls where
